@@ -15,6 +15,13 @@ Proof. reflexivity. Qed.
 Lemma gen_element_dofs_is_model tp d : gen_element_dofs tp d = element_dofs_of tp d.
 Proof. reflexivity. Qed.
 
+(* ElementVector.__init__: every entity kind gets dim times the DOFs of the scalar element — dim = number of COMPONENTS,
+   whatever the spatial dimension edim is *)
+Theorem gen_vector_layout_spec (d : nat -> nat) dim edim K : K < 4 -> gen_vector_layout d dim edim K = dim * d K.
+Proof.
+  intros HK. destruct K as [|[|[|[|K]]]]; try lia; unfold gen_vector_layout; first [reflexivity | ring | nia].
+Qed.
+
 (* _deduce_bfun: the local basis function (kind K, local entity itr, slot o_{n,K} + r) of the composite element is
    basis function (K, itr, r) of component n — for every list of component layouts and every reference cell *)
 Theorem gen_deduce_bfun_spec ref ls n K itr r :
